@@ -60,6 +60,18 @@ func (p *parser) parseStatement() ast.Statement {
 		p.comments.ResetLineBreak()
 	}
 
+	// The labels directly in front of this statement are its label set; only an
+	// iteration statement makes them targets of continue, for its own extent.
+	labelSet := p.scope.labelSet
+	p.scope.labelSet = nil
+	if p.token == token.DO || p.token == token.WHILE || p.token == token.FOR {
+		iterLabels := p.scope.iterLabels
+		p.scope.iterLabels = append(iterLabels[:len(iterLabels):len(iterLabels)], labelSet...)
+		defer func() {
+			p.scope.iterLabels = iterLabels
+		}()
+	}
+
 	switch p.token {
 	case token.SEMICOLON:
 		return p.parseEmptyStatement()
@@ -125,6 +137,7 @@ func (p *parser) parseStatement() ast.Statement {
 			labelComments = p.comments.FetchAll()
 		}
 		p.scope.labels = append(p.scope.labels, label) // Push the label
+		p.scope.labelSet = append(labelSet, label)
 		statement := p.parseStatement()
 		p.scope.labels = p.scope.labels[:len(p.scope.labels)-1] // Pop the label
 		exp := &ast.LabelledStatement{
@@ -879,7 +892,7 @@ func (p *parser) parseContinueStatement() ast.Statement {
 			p.error(idx, "Undefined label '%s'", identifier.Name)
 			return &ast.BadStatement{From: idx, To: identifier.Idx1()}
 		}
-		if !p.scope.inIteration {
+		if !p.scope.inIteration || !p.scope.isIterationLabel(identifier.Name) {
 			goto illegal
 		}
 		p.semicolon()
